@@ -11,7 +11,7 @@ mcvars == <<vars, nf, nc>>
 MCInit == (\E c \in MCCfgs : InitWith(c)) /\ nf = 0 /\ nc = 0
 Changes(j, i) == rep[i][j] # step[j] \/ j \notin conn[i]
 Internal ==
-  \/ \E j, i \in Honest : Changes(j, i) /\ Report(j, i)
+  \/ \E j, i \in Honest : Changes(j, i) /\ Ping(j, i)
   \/ \E i \in Honest : Connected(i) \/ Pass(i) \/ TooFar(i) \/ Fail(i) \/ Down(i) \/ FRej(i)
   \/ \E i \in Honest, j \in Members : ShutMsg(i, j)
 Env ==
@@ -25,7 +25,7 @@ MCNext ==
         nf < MaxF /\ FMsg(s, Msg(a, st, sd)) /\ nf' = nf + 1 /\ UNCHANGED nc
 MCSpec == MCInit /\ [][MCNext]_mcvars
 \* liveness: the goroutines keep running and Run keeps going
-Fair == /\ \A j, i \in 1..4 : WF_vars(j \in Honest /\ i \in Honest /\ Changes(j, i) /\ Report(j, i))
+Fair == /\ \A j, i \in 1..4 : WF_vars(j \in Honest /\ i \in Honest /\ Changes(j, i) /\ Ping(j, i))
         /\ \A i \in 1..4 : /\ WF_vars(i \in Honest /\ Connected(i)) /\ WF_vars(i \in Honest /\ Pass(i))
                            /\ WF_vars(i \in Honest /\ Fail(i)) /\ WF_vars(i \in Honest /\ Down(i))
                            /\ WF_vars(i \in Honest /\ FRej(i)) /\ WF_vars(i \in Honest /\ Start(i))
